@@ -6,6 +6,7 @@ from p_drv import DrvProp, K, parse
 def oracle(case, out):
     evs, slots = parse(out)
     in_kernel, frozen, queued, freed, alloc = set(), set(), {}, set(), set()
+    held = set()
     ring_open = True
     for idx, (k, key, arg) in enumerate(evs):
         if k in (17, 19) and key >= 9999999:
@@ -13,6 +14,10 @@ def oracle(case, out):
                     "(stale user data: use after free)" % (idx, "was armed with" if k == 17 else "delivered an event carrying"))
         if k == K["NEW"]:
             alloc.add(key)
+            held.add(key)
+        elif k in (K["U_DROP"], K["U_CANCEL"], K["U_PUSH_READY"]) or (k == K["U_POP"] and arg == 1):
+            # the submitter gives its handle up (drop, cancel consumes it, the result is taken)
+            held.discard(key)
         elif k == K["SUBMIT"]:
             in_kernel.add(key)
         elif k in (K["FINAL"], K["DRAIN"]):
@@ -39,6 +44,9 @@ def oracle(case, out):
                         "OS still owns the operation (no final completion, ring open)" % (idx, key))
             if key in frozen:
                 return "event %d: storage of operation %d freed while a pool thread runs it" % (idx, key)
+            if key in held:
+                return ("event %d: storage of operation %d released while its submitter still holds the handle "
+                        "(a reference was released twice; the handle now points to freed memory)" % (idx, key))
             freed.add(key)
     leaked = alloc - freed
     if leaked:
